@@ -59,6 +59,38 @@ def run(ctx):
                         if W.maxdiff(rn, mo) > 5e-4 * scale:
                             ctx.alarm('correspondence', 'gerchberg_saxton reconstruction differs from the model forward of the returned hologram by %.3g (%s)'
                                       % (W.maxdiff(rn, mo), rec))
+    # ---------------- the same in SI units (metres: k z is millions of radians, so the precision in which the distance is carried matters), with the distance
+    # handed over as a Python float, a NumPy float64 scalar, a 0-d float64 tensor, and with torch's default dtype set to float64 by the caller: the returned
+    # reconstruction is what the public propagate_beam gives for the returned hologram and the caller's own distance
+    lam_si, dx_si = 515e-9, 8e-6
+    for (h, w) in ((16, 16), (15, 18)):
+        for z_si in (0.2, 0.05, -0.1):
+            for name in ('Transfer Function Fresnel', 'Angular Spectrum', 'Bandlimited Angular Spectrum'):
+                for what in ('Python float', 'NumPy float64 scalar', '0-d float64 tensor', 'default dtype float64'):
+                    zz = {'Python float': z_si, 'NumPy float64 scalar': np.float64(z_si), '0-d float64 tensor': torch.tensor(z_si, dtype=torch.float64),
+                          'default dtype float64': z_si}[what]
+                    rec = {'routine': 'gerchberg_saxton', 'h': h, 'w': w, 'iterations': 2, 'distance': z_si, 'method': name, 'si_units': True, 'distance_given_as': what}
+                    ctx.case(('gs_si', h, w, z_si, name, what), True)
+                    ctx.count('gs/SI units/distance as ' + what)
+                    old_default = torch.get_default_dtype()
+                    try:
+                        if what == 'default dtype float64':
+                            torch.set_default_dtype(torch.float64)
+                        torch.manual_seed(11)
+                        field = torch.rand(h, w, dtype=torch.float64) * torch.exp(1j * torch.rand(h, w, dtype=torch.float64) * 6.28)
+                        holo, recon = LW.gerchberg_saxton(field, 2, zz, dx_si, lam_si, propagation_type=name)
+                        again = LW.propagate_beam(holo, LW.wavenumber(lam_si), zz, dx_si, lam_si, propagation_type=name, zero_padding=[True, False, True])
+                    except Exception as e:
+                        ctx.count('gs/SI units/rejected: %s (%s)' % (what, type(e).__name__))
+                        continue
+                    finally:
+                        torch.set_default_dtype(old_default)
+                    rn, an = recon.detach().numpy().astype(np.complex128), again.detach().numpy().astype(np.complex128).reshape(recon.shape)
+                    scale = max(1e-30, float(np.max(np.abs(an))))
+                    if not np.isfinite(rn).all() or W.maxdiff(rn, an) > 2e-3 * scale:
+                        ctx.violation('torch gerchberg_saxton (%s, %dx%d, z = %g m, distance given as %s): the returned reconstruction differs from propagate_beam of the '
+                                      'returned hologram over the same distance by %.3g of the peak amplitude' % (name, h, w, z_si, what, W.maxdiff(rn, an) / scale), rec,
+                                      {'routine': 'gerchberg_saxton', 'what': 'reconstruction', 'si_units': True, 'distance_given_as': what})
     # ---------------- torch stochastic gradient descent (pad-then-crop propagation)
     sgd_methods = (('Bandlimited Angular Spectrum', 'bl', 2), ('Angular Spectrum', 'as', 0), ('Transfer Function Fresnel', 'tf', 1))
     for (h, w) in shapes:
